@@ -114,18 +114,18 @@ Qed.
 Print Assumptions batch_key_local.
 
 (* The executable checker of the correspondence is sound and complete for complete
-   per-key histories over the per-key machine [kstep] (strings, lists, sets, hashes: GET, SET [NX|XX] [GET], SETNX,
+   per-key histories over the per-key machine [tkstep] (value + deadline + clock; strings, lists, sets, hashes: GET, SET [NX|XX] [GET], SETNX,
    GETSET, GETDEL, INCRBY, APPEND, SETRANGE, DEL, EXISTS, LPUSH/RPUSH/LPOP/RPOP, SADD/SREM, HSET/HDEL,
-   atomic lists of these): it answers true exactly when some permutation of the history that
+   SET PX/EX/KEEPTTL, EXPIRE/PEXPIRE, PERSIST, TTL/PTTL, GETEX, clock advances; atomic lists of these): it answers true exactly when some permutation of the history that
    respects real-time order is a legal sequential run with the observed replies. *)
 Theorem lin_check_sound : forall init h,
   lin_check init h = true ->
-  linearizable_complete kst (list prim) (list prep) kstep init h.
+  linearizable_complete tst (list cmd) (list prep) tkstep init h.
 Proof. exact lin_check_sound_lemma. Qed.
 Print Assumptions lin_check_sound.
 
 Theorem lin_check_complete : forall init h,
-  linearizable_complete kst (list prim) (list prep) kstep init h ->
+  linearizable_complete tst (list cmd) (list prep) tkstep init h ->
   lin_check init h = true.
 Proof. exact lin_check_complete_lemma. Qed.
 Print Assumptions lin_check_complete.
@@ -133,10 +133,10 @@ Print Assumptions lin_check_complete.
 (* with distinct operation ids this is the classical definition (no pending operations) *)
 Theorem lin_check_classical : forall init h,
   NoDup (map o_id h) -> lin_check init h = true ->
-  linearizable kst (list prim) (list prep) kstep init h [].
+  linearizable tst (list cmd) (list prep) tkstep init h [].
 Proof.
   intros init h Hn Hc.
-  exact (complete_linearizable _ _ _ kstep init h Hn (lin_check_sound_lemma init h Hc)).
+  exact (complete_linearizable _ _ _ tkstep init h Hn (lin_check_sound_lemma init h Hc)).
 Qed.
 Print Assumptions lin_check_classical.
 
@@ -144,7 +144,7 @@ Print Assumptions lin_check_classical.
    the two procedures always agree; a [false] answer needs no further confirmation *)
 Theorem lin_brute_exact : forall init h,
   lin_brute init h = true <->
-  linearizable_complete kst (list prim) (list prep) kstep init h.
+  linearizable_complete tst (list cmd) (list prep) tkstep init h.
 Proof. exact lin_brute_exact_lemma. Qed.
 Print Assumptions lin_brute_exact.
 
@@ -199,12 +199,20 @@ Example C02_nonvacuous :
 Proof. vm_compute. repeat split; reflexivity. Qed.
 Print Assumptions C02_nonvacuous.
 
-(* the checker accepts a linearizable history with overlap and rejects a stale read *)
+(* the checker accepts a linearizable history with overlap, rejects a stale read, and knows that
+   a plain SET clears the deadline: after SET v PX 150, SET v, clock +200 the key is still there *)
 Example C02_checker_discriminates :
-  lin_check KNone [OpRec 0 0 (Some 3) [PSet [97%N]] [ROk];
-                  OpRec 1 1 (Some 4) [PGet] [RVal None];
-                  OpRec 2 5 (Some 6) [PGet] [RVal (Some [97%N])]] = true /\
-  lin_check KNone [OpRec 0 0 (Some 1) [PSet [97%N]] [ROk];
-                  OpRec 1 2 (Some 3) [PGet] [RVal None]] = false.
-Proof. vm_compute. split; reflexivity. Qed.
+  lin_check (TSt KNone None 0) [OpRec 0 0 (Some 3) [CP (PSet [97%N])] [ROk];
+                  OpRec 1 1 (Some 4) [CP PGet] [RVal None];
+                  OpRec 2 5 (Some 6) [CP PGet] [RVal (Some [97%N])]] = true /\
+  lin_check (TSt KNone None 0) [OpRec 0 0 (Some 1) [CP (PSet [97%N])] [ROk];
+                  OpRec 1 2 (Some 3) [CP PGet] [RVal None]] = false /\
+  lin_check (TSt KNone None 0) [OpRec 0 0 (Some 1) [CSetPx [97%N] 150] [ROk];
+                  OpRec 1 2 (Some 3) [CP (PSet [97%N])] [ROk];
+                  OpRec 2 4 (Some 5) [CAdv 200] [ROk];
+                  OpRec 3 6 (Some 7) [CP PGet] [RVal None]] = false /\
+  lin_check (TSt KNone None 0) [OpRec 0 0 (Some 1) [CSetPx [97%N] 150] [ROk];
+                  OpRec 1 2 (Some 3) [CAdv 200] [ROk];
+                  OpRec 2 4 (Some 5) [CP PGet] [RVal None]] = true.
+Proof. vm_compute. repeat split; reflexivity. Qed.
 Print Assumptions C02_checker_discriminates.
